@@ -123,6 +123,11 @@ pub struct ChildOut2 {
 }
 
 fn run_child(bin: &str, dir: &str, tag: &str, plans: Vec<(u64, FPlan)>) -> ChildResult {
+    // every child sees file names of the same length (they are allocated in the child: under
+    // the system allocator the layout of its heap, and with it which freed address is handed
+    // out again, must not depend on how a run happened to be labelled)
+    let tag = format!("{:016x}", crate::prng::fnv(tag.as_bytes()));
+    let tag = tag.as_str();
     let plans_len = plans.len();
     let job = format!("{}/job-{}.json", dir, tag);
     let crumb = format!("{}/crumb-{}", dir, tag);
@@ -272,6 +277,26 @@ fn judge_any(asan: &str, clause_hint: &str, dir: &str, tag: &str, index: u64, pl
     }
 }
 
+/// `plan` after `prefix` in one child of the build without the sanitizer; a violation counts
+/// only when it is reported for `plan` itself.
+fn judge_with_prefix(dir: &str, tag: &str, index: u64, prefix: &[FPlan], plan: &FPlan) -> Option<(String, String, usize)> {
+    let first = index.saturating_sub(prefix.len() as u64);
+    let mut plans: Vec<(u64, FPlan)> = prefix.iter().enumerate().map(|(k, p)| (first + k as u64, p.clone())).collect();
+    plans.push((index, plan.clone()));
+    let r = run_child(&plain_bin(), dir, tag, plans);
+    match r.out.as_ref().and_then(|o| o.violation.clone()) {
+        Some((i, c, d, op)) if i == index => Some((format!("{}{}", PLAIN, c), d, op)),
+        Some(_) => None,
+        None => {
+            if r.crumb == Some(index) {
+                classify(&r, plan.ops.len()).map(|(c, d, o)| (format!("{}{}", PLAIN, c), d, o))
+            } else {
+                None
+            }
+        }
+    }
+}
+
 pub fn cmd_replay(env: &Env, path: &str, rep: &FReplay) -> i32 {
     let bin = asan_bin(env);
     let dir = format!("{}/.cache/ffi", env.paths.verif);
@@ -279,7 +304,13 @@ pub fn cmd_replay(env: &Env, path: &str, rep: &FReplay) -> i32 {
     for (i, op) in rep.plan.ops.iter().enumerate() {
         println!("#{:<3} {:?}", i, op);
     }
-    match judge_any(&bin, &rep.clause, &dir, &format!("replay-{}", std::process::id()), rep.run_index, &rep.plan) {
+    let verdict = if rep.prefix_plans.is_empty() {
+        judge_any(&bin, &rep.clause, &dir, &format!("replay-{}", std::process::id()), rep.run_index, &rep.plan)
+    } else {
+        println!("(after {} earlier life cycles in the same process, system allocator)", rep.prefix_plans.len());
+        judge_with_prefix(&dir, &format!("replay-{}", std::process::id()), rep.run_index, &rep.prefix_plans, &rep.plan)
+    };
+    match verdict {
         Some((clause, detail, _)) => {
             println!("clause: {}", clause);
             println!("detail: {}", detail);
@@ -453,11 +484,27 @@ pub fn cmd_run(env: &Arc<Env>, tier: &str, args: &[String]) -> i32 {
         // confirm alone in a fresh child, then minimise by re-running children on sub-plans
         let tag = format!("{}-min", std::process::id());
         let confirmed = judge_any(&bin, &clause, &dir, &tag, index, &plan);
+        let mut prefix_plans: Vec<FPlan> = Vec::new();
         let (mut best, mut best_v) = match confirmed {
             Some((c, d, o)) if c == clause => (plan.clone(), (c, d, o)),
-            other => die(&format!("life cycle {} reported {} but alone in a fresh child it gives {:?}", index, clause, other.map(|x| x.0))),
+            other => {
+                // under the system allocator a violation may depend on the heap the earlier life
+                // cycles of the same process left behind: confirm it after the same predecessors
+                let mut again = None;
+                if clause.starts_with(PLAIN) {
+                    let start = index - index % chunk;
+                    prefix_plans = (start..index).map(|i| gen_plan(env, lifecycle_seed(verif_seed, i), thorough)).collect();
+                    again = judge_with_prefix(&dir, &tag, index, &prefix_plans, &plan);
+                }
+                match again {
+                    Some((c, d, o)) if c == clause => (plan.clone(), (c, d, o)),
+                    _ => die(&format!("life cycle {} reported {} but alone in a fresh child it gives {:?}", index, clause, other.map(|x| x.0))),
+                }
+            }
         };
-        let budget = if clause == "no-return" { 15 } else { 120 }; // every confirmation of a hang costs its whole time limit
+        // (no minimisation for a violation that needs its predecessors: every candidate would
+        // change the heap it depends on)
+        let budget = if !prefix_plans.is_empty() { 0 } else if clause == "no-return" { 15 } else { 120 }; // every confirmation of a hang costs its whole time limit
         let mut execs = 0;
         let mut chunk_sz = (best.ops.len() / 2).max(1);
         loop {
@@ -502,6 +549,7 @@ pub fn cmd_run(env: &Arc<Env>, tier: &str, args: &[String]) -> i32 {
             original_ops: plan.ops.len(),
             minimised_ops: best.ops.len(),
             plan: best.clone(),
+            prefix_plans: prefix_plans.clone(),
         };
         let rdir = format!("{}/replays/C19", env.paths.verif);
         let _ = std::fs::create_dir_all(&rdir);
